@@ -131,6 +131,21 @@ func (c04) Run(c *Ctx, i int) CaseResult {
 		id = fmt.Sprintf("gen:%d", i)
 	}
 	res := CaseResult{ID: id, Key: fmt.Sprint(in.Spec.SDLs, in.Spec.Priorities, in.Query, in.Faults)}
+	// L2: the scrubber model against scrubInsertionIDs (4 generated responses per case)
+	scrubbed := 0
+	for k := 0; k < 4; k++ {
+		sf, sfeats := ScrubCorr(c, c.Rand(i*10+k+91000000))
+		if len(sf) > 0 {
+			res.Nontrivial = true
+			res.Fails = sf
+			return res
+		}
+		for _, f := range sfeats {
+			if f == "scrub-compared" {
+				scrubbed++
+			}
+		}
+	}
 	fc, err := RunFed(c, in, 5*time.Second)
 	if err != nil {
 		res.Fails = append(res.Fails, Failure{Channel: "harness", Classifier: "harness-error", What: err.Error(), Input: in})
@@ -173,7 +188,7 @@ func (c04) Run(c *Ctx, i int) CaseResult {
 	}
 	count(plan.RootStep.Then)
 	res.Nontrivial = ndep > 0
-	res.Counters = map[string]int{"dependent_steps": ndep, "scrub_paths": len(plan.FieldsToScrub["id"])}
+	res.Counters = map[string]int{"dependent_steps": ndep, "scrub_paths": len(plan.FieldsToScrub["id"]), "scrubber_model_compared": scrubbed}
 	// L1: scrub table of every plan of the document against the model, computed from that plan's own operation
 	if c.Drv != nil {
 		for _, pl := range fc.Out.Plans {
